@@ -70,6 +70,8 @@ package backend
 //@   let pageInv = len(objects) + len(cpmap) <= max && (pastMax <==> len(objects) + len(cpmap) == max) && (pastMax ==> newMarker != "") && (truncated ==> pastMax)
 // internal bookkeeping names never appear: the walk starts neither at nor below a directory it skips
 //@   at-call fs.WalkDir {C07,C08} [the-walk-does-not-start-below-a-skipped-directory] requires !belowSkipped($1, skipdirs)
+// a prefix whose directory part is no valid path matches no key: the listing is empty, the file system is not asked
+//@   at-call fs.WalkDir {C07} [the-walk-starts-at-a-valid-path] requires fs.ValidPath($1)
 //@   at-call fs.WalkDir {C07} [page-state-initialised] requires pageInv
 //@   after-call fs.WalkDir {C07} [page-state-kept-by-the-callback] invariant pageInv
 //@   ensures {C07} [at-most-max-keys-objects] err == nil ==> len(ret0.Objects) <= max
